@@ -21,7 +21,7 @@ import core
 
 MANIFEST = dict(
     technique="TLA+ spec (MultiValued: class tables, Build/Dump/Parse/Load, width rule) model-checked by TLC over every subset of every class's structured fields; CASE lines replayed into Dsc/Changes/BuildInfo/PdiffIndex/Release in both directions; recorded life cycles validated by TLC (TraceMultiValued)",
-    text="TLC explores, to a fixed point, every class x Release.size_field_behavior x EVERY subset of the class's structured fields (PdiffIndex: 2^14) x record lists of <= 2 records (sizes of 1..18 characters, single-line form included) and checks DumpTotal, RecordsRoundTrip, SubFieldNames and the width rule (16, or the longest size of the field); the life cycle is a history: after a dump a record may be appended or a size replaced in place, a list re-assigned, a field deleted, and every later dump is checked against the current records; spec-level negative controls (IterateAllFields = the pre-78e977a KeyError, CacheWidths = stale width table after an in-place mutation, SplitEverySpace) must make TLC report a violation. Each explored paragraph is printed as a CASE line with the expected layout and replayed with concretized tokens: build from records -> dump() -> parse, and parse the expected text -> dump() -> parse; recorded life cycles with up to 6 records, arbitrary token lengths and white space are validated by TLC against the same actions.",
+    text="TLC explores, to a fixed point, every class x Release.size_field_behavior x EVERY subset of the class's structured fields (PdiffIndex: 2^14) x record lists of <= 2 records (sizes of 1..18 characters, single-line form included) and checks DumpTotal, RecordsRoundTrip, SubFieldNames and the width rule (16, or the longest size of the field); the life cycle is a history: after a dump a record may be appended or a size replaced in place, a list re-assigned, a field deleted, and every later dump is checked against the current records; records are positions (identical records stay independent, also in parsed paragraphs), size_field_behavior is state of one object (other live objects are interleaved, a fresh Release is at the default); spec-level negative controls (IterateAllFields = the pre-78e977a KeyError, CacheWidths, SharedEqualRecords, ClassLevelOption, SplitEverySpace) must make TLC report a violation. Each explored paragraph is printed as a CASE line with the expected layout and replayed with concretized tokens: build from records -> dump() -> parse, and parse the expected text -> dump() -> parse; recorded life cycles with up to 6 records, arbitrary token lengths and white space are validated by TLC against the same actions.",
     note="Sub-field tables are transcribed from the module docstring (BuildInfo is not listed there: taken from deb-buildinfo(5)/the class). Unspecified: Release/dak with a single-line field (TypeError today), width of a Release/apt-ftparchive field holding a size longer than 16. Separator blanks other than the size padding are diagnostic. Quick tier replays a seed-dependent 1/24 sample of the PdiffIndex subsets (all are model-checked), thorough replays every subset. Trusted: TLC, the layout projection (regex over dump()), the concretizer.",
     design="5 (C12)")
 
